@@ -7,6 +7,7 @@ import (
 	"fmt"
 	"io"
 	"strings"
+	"testing/iotest"
 
 	"github.com/biogo/biogo/alphabet"
 	"github.com/biogo/biogo/io/seqio"
@@ -61,7 +62,48 @@ type SeqFile struct {
 	Enc    int8     `json:"enc"`
 	WriteQ bool     `json:"write_qseq"` // values handed to the writer are *linear.QSeq
 	ReadQ  bool     `json:"read_qseq"`  // reader template is *linear.QSeq
+	Route  int      `json:"route,omitempty"` // how the reader is driven, see Source / GenRoute
 	Recs   []SeqRec `json:"recs"`
+}
+
+// Route values: bit 0 set = records are pulled through the package's Scanner
+// (Next/Seq/Error) instead of calling Read directly; bits 1-2 select the
+// io.Reader the bytes come from (0 bytes.Reader, 1 one byte per Read call,
+// 2 final data delivered together with io.EOF, 3 half of the requested bytes
+// per call). None of them may change what is parsed.
+func GenRoute(t *rapid.T) int {
+	if rapid.IntRange(0, 2).Draw(t, "route-plain") == 0 {
+		return 0
+	}
+	return rapid.IntRange(0, 7).Draw(t, "route")
+}
+
+// Source wraps data in the io.Reader selected by route.
+func Source(data []byte, route int) io.Reader {
+	var r io.Reader = bytes.NewReader(data)
+	switch (route >> 1) & 3 {
+	case 1:
+		if len(data) <= 30000 { // one-byte reads are slow on long files
+			return iotest.OneByteReader(r)
+		}
+	case 2:
+		return iotest.DataErrReader(r)
+	case 3:
+		return iotest.HalfReader(r)
+	}
+	return r
+}
+
+// RouteClasses labels a route for the histograms.
+func RouteClasses(route int) []string {
+	var l []string
+	if route&1 != 0 {
+		l = append(l, "via-scanner")
+	}
+	if (route>>1)&3 != 0 {
+		l = append(l, "awkward-io-reader")
+	}
+	return l
 }
 
 // AlphabetByName maps a case's alphabet name to the library alphabet.
@@ -237,6 +279,7 @@ func GenSeqFile(t *rapid.T, format string, maxRecs int, allowLong bool) SeqFile 
 	f.Alpha = rapid.SampledFrom([]string{"DNA", "DNAredundant", "RNA", "Protein", "DNAgapped"}).Draw(t, "alpha")
 	f.WriteQ = rapid.Bool().Draw(t, "write-qseq")
 	f.ReadQ = rapid.Bool().Draw(t, "read-qseq")
+	f.Route = GenRoute(t)
 	f.Enc = int8(alphabet.Sanger)
 	if format == "fasta" {
 		f.Width = rapid.OneOf(rapid.IntRange(1, 200), rapid.SampledFrom([]int{1, 2, 60, 80, 4095, 4096, 4097, 5000, 10000})).Draw(t, "width")
@@ -352,34 +395,74 @@ func (f SeqFile) Template() seqio.SequenceAppender {
 	return linear.NewSeq("", nil, alpha)
 }
 
-// ReadLib parses data with the matching library reader until io.EOF.
+// ReadLib parses data with the matching library reader until io.EOF. Every
+// returned sequence is kept until the end of the file and only then looked at,
+// so a reader that hands out storage it goes on to reuse for later records is
+// seen as wrong letters in the earlier ones.
 func (f SeqFile) ReadLib(data []byte) ([]ReadRec, error) {
 	var r seqio.Reader
+	tmpl := f.Template()
 	if f.Format == "fasta" {
-		r = fasta.NewReader(bytes.NewReader(data), f.Template())
+		r = fasta.NewReader(Source(data, f.Route), tmpl)
 	} else {
-		r = fastq.NewReader(bytes.NewReader(data), f.Template())
+		r = fastq.NewReader(Source(data, f.Route), tmpl)
 	}
-	var out []ReadRec
-	for i := 0; ; i++ {
-		s, err := r.Read()
-		if err == io.EOF {
-			if s != nil {
-				return out, fmt.Errorf("read: record together with io.EOF")
+	var seqs []seq.Sequence
+	conv := func() []ReadRec {
+		var out []ReadRec
+		for _, s := range seqs {
+			out = append(out, toReadRec(s))
+		}
+		return out
+	}
+	if f.Route&1 != 0 {
+		sc := seqio.NewScanner(r)
+		for i := 0; sc.Next(); i++ {
+			s := sc.Seq()
+			if s == nil {
+				return conv(), fmt.Errorf("read: Scanner.Next true with a nil sequence after %d records", len(seqs))
 			}
-			return out, nil
+			seqs = append(seqs, s)
+			if i > len(data)+2 {
+				return conv(), fmt.Errorf("read: no EOF after %d calls", i)
+			}
 		}
-		if err != nil {
-			return out, fmt.Errorf("read-error: after %d records: %v", len(out), err)
+		if err := sc.Error(); err != nil {
+			return conv(), fmt.Errorf("read-error: after %d records: %v", len(seqs), err)
 		}
-		if s == nil {
-			return out, fmt.Errorf("read: (nil, nil) after %d records", len(out))
+		if sc.Next() {
+			return conv(), fmt.Errorf("read: Scanner.Next true again after it returned false")
 		}
-		out = append(out, toReadRec(s))
-		if i > len(data)+2 {
-			return out, fmt.Errorf("read: no EOF after %d calls", i)
+	} else {
+		for i := 0; ; i++ {
+			s, err := r.Read()
+			if err == io.EOF {
+				if s != nil {
+					return conv(), fmt.Errorf("read: record together with io.EOF")
+				}
+				break
+			}
+			if err != nil {
+				return conv(), fmt.Errorf("read-error: after %d records: %v", len(seqs), err)
+			}
+			if s == nil {
+				return conv(), fmt.Errorf("read: (nil, nil) after %d records", len(seqs))
+			}
+			seqs = append(seqs, s)
+			if i > len(data)+2 {
+				return conv(), fmt.Errorf("read: no EOF after %d calls", i)
+			}
 		}
 	}
+	for i, s := range seqs {
+		if s == seq.Sequence(tmpl.(seq.Sequence)) {
+			return conv(), fmt.Errorf("read: record %d is the reader's template itself", i)
+		}
+	}
+	if tmpl.(seq.Sequence).Len() != 0 {
+		return conv(), fmt.Errorf("read: the reader's template was written to (%d letters)", tmpl.(seq.Sequence).Len())
+	}
+	return conv(), nil
 }
 
 func toReadRec(s seq.Sequence) ReadRec {
